@@ -868,10 +868,16 @@ _PARSE_LOC = ["UExt.parseIter", "TExt.parseIter", "PExt.parseIter", "ExtMap.pars
 # the `Display` impls (formatter = output buffer, `for` loops), `is_empty`, `canonicalize`
 _FMT = ["Language.fmt", "Script.fmt", "Region.fmt", "Variant.fmt", "LangId.fmt", "UExt.isEmpty", "TExt.isEmpty", "PExt.isEmpty", "ExtMap.isEmpty",
         "UExt.fmt", "TExt.fmt", "PExt.fmt", "ExtMap.fmt", "Locale.fmt", "LangId.canonicalize", "Locale.canonicalize"]
-SRC_TIE = {"C01": _SUBTAGS + _EXT + _PARSE_LI + _PARSE_LOC, "C02": _SUBTAGS + _PARSE_LI, "C03": _SUBTAGS + _EXT + _PARSE_LI + _PARSE_LOC,
+# the mutators and getters (`&mut self`, Vec / BTreeMap mutation, binary_search, the collect idiom), from_parts / into_parts
+_OPS = ["UExt.keyword", "UExt.keywordKeys", "UExt.setKeyword", "UExt.removeKeyword", "UExt.clearKeywords", "UExt.hasAttribute", "UExt.attributes",
+        "UExt.setAttribute", "UExt.removeAttribute", "UExt.clearAttributes", "TExt.tlang", "TExt.setTLang", "TExt.clearTLang", "TExt.tfield",
+        "TExt.tfieldKeys", "TExt.setTField", "TExt.removeTField", "TExt.clearTFields", "PExt.hasTag", "PExt.addTag", "PExt.removeTag", "PExt.clearTags",
+        "LangId.fromParts", "LangId.intoParts", "LangId.variants", "LangId.setVariants", "LangId.hasVariant", "LangId.clearVariants",
+        "Locale.fromParts", "Locale.intoParts", "Locale.isMatch"]
+SRC_TIE = {"C01": _SUBTAGS + _EXT + _PARSE_LI + _PARSE_LOC + _OPS, "C02": _SUBTAGS + _PARSE_LI, "C03": _SUBTAGS + _EXT + _PARSE_LI + _PARSE_LOC,
            "C04": _SUBTAGS + _EXT + _PARSE_LI + _PARSE_LOC + _FMT, "C05": _SUBTAGS + _EXT + _PARSE_LI + _PARSE_LOC + _FMT,
-           "C09": _SUBTAGS + _EXT + _PARSE_LI + _PARSE_LOC, "C10": _SUBTAGS + _EXT, "C11": _MATCH, "C12": ["Language.asStr"] + _FMT, "C19": _PARSE_LI + _FMT,
-           "C13": _SUBTAGS + _PARSE_LI + _PARSE_LOC, "C15": _SUBTAGS, "C17": _SUBTAGS + _PARSE_LI + _FMT}
+           "C09": _SUBTAGS + _EXT + _PARSE_LI + _PARSE_LOC, "C10": _SUBTAGS + _EXT + _OPS + _FMT + _PARSE_LOC, "C11": _MATCH + ["Locale.isMatch"], "C12": ["Language.asStr"] + _FMT + _OPS, "C19": _PARSE_LI + _FMT,
+           "C13": _SUBTAGS + _PARSE_LI + _PARSE_LOC, "C15": _SUBTAGS, "C17": _SUBTAGS + _PARSE_LI + _FMT + _OPS}
 
 
 PARSE_STREAMS = [("tokens", None), ("wf", None), ("near", None), ("raw", None)]
